@@ -95,6 +95,7 @@ type Lemma struct {
 	Ensures   []*Clause
 	Induction string // parameter name for induction (natural: step from x-1 to x), "" none
 	IndBase   string // expression text for base bound, default 0 (case x <= base is the base case)
+	TwoState  bool   // mentions old(): proved for an arbitrary pair of heaps
 	Axiom     bool   // trusted, not proved
 	Auto      bool   // assumed as a quantified axiom in every obligation of the package (with patterns)
 	Pats      [][]SExpr
@@ -360,6 +361,8 @@ func (ps *PkgSpec) parseLines(raw []rawLine) error {
 					lm.IndBase = opt[len("base="):]
 				case opt == "auto":
 					lm.Auto = true
+				case opt == "twostate":
+					lm.TwoState = true
 				default:
 					return errf("bad lemma option %q", opt)
 				}
